@@ -12,7 +12,7 @@ import itertools
 import os
 import shlex
 
-from ..core import env, par, shrink
+from ..core import env, par, result, shrink
 from ..core.result import Failure, Report, robust
 
 ID = "C11"
@@ -161,9 +161,9 @@ def _work(arg):
                 outcomes.add(repr(expected(groups)))
     out = []
     seen = set()
-    for a0, groups in fails:
-        f = robust(mk_failure, {"argv0": a0, "argv": [x for g in groups for x in g]}, a0, groups)
-        if f and f.key() not in seen:
+    wit = lambda ag: {"argv0": ag[0], "argv": [x for g in ag[1] for x in g]}  # noqa
+    for f in result.shrink_within_budget(fails, lambda ag: robust(mk_failure, wit(ag), ag[0], ag[1]), wit):
+        if f.key() not in seen:
             seen.add(f.key())
             out.append(f)
     return n, len(fails), out, len(outcomes)
